@@ -5,6 +5,7 @@ standard rows (`Spec.commandRows`, served by the model driver): flags (send
 twice, answer none / yes-no / value, device type), and the frame of the real
 object for legal arguments vs the frame computed from the standard row alone;
 conversely the standard's frame decodes to the class of that name."""
+from common import exc_name  # noqa: E402
 from props import cmdcommon as cc
 from props.c02 import family, qn
 
@@ -119,7 +120,7 @@ def correspond(ctx, corr):
             try:
                 built.append((build(), line or "spec frame %s %s" % (name, " ".join(args)), name, args))
             except Exception as e:  # noqa
-                corr.violate("frame:" + name, args, "constructible", type(e).__name__)
+                corr.violate("frame:" + name, args, "constructible", exc_name(e))
         if fam == "std":
             for d in gear:
                 if hp:
@@ -221,7 +222,7 @@ def correspond(ctx, corr):
         try:
             got = obj.is_query
         except Exception as e:  # noqa
-            got = "raises " + type(e).__name__
+            got = "raises " + exc_name(e)
         if got is not std_answer[name]:
             corr.violate("table:is_query:" + name, where, std_answer[name], got,
                          "is_query differs from the standard's Answer column")
